@@ -263,6 +263,10 @@ def _worker(wid, part, prop, tier, vseed, batches, counter, lock, deadline, sess
     signal.alarm(0)
     os.setsid()
     env = Env(session)
+    try:
+        import esutil  # noqa: F401  (module-level code only: nothing of esutil is CALLED in this process)
+    except Exception:
+        pass
     with open(outpath, "ab") as out:
         while True:
             with lock:
@@ -275,13 +279,35 @@ def _worker(wid, part, prop, tier, vseed, batches, counter, lock, deadline, sess
             start, count = batches[k]
             pickle.dump(("start", k), out)
             out.flush()
-            S = run_batch(part, prop, tier, vseed, start, count, env, open_entries,
-                          want_samples=2 if k == 0 else 0)
-            pickle.dump(("done", k, S), out)
-            out.flush()
-            if S["viol_count"]:
-                with lock:
-                    nviol.value += S["viol_count"]
+            # every batch runs in a process of its own, forked from this one, in which esutil has never been used:
+            # whatever esutil keeps per process (C statics, module-level caches, default-argument objects) is in its
+            # initial state at the first run of each batch -- a process start is part of the histories -- and a batch
+            # that kills its process (crash, per-run watchdog) does not take the worker with it
+            sys.stdout.flush()
+            sys.stderr.flush()
+            cpid = os.fork()
+            if cpid == 0:
+                code = 0
+                try:
+                    S = run_batch(part, prop, tier, vseed, start, count, env, open_entries,
+                                  want_samples=2 if k == 0 else 0)
+                    pickle.dump(("done", k, S), out)
+                    out.flush()
+                    if S["viol_count"]:
+                        with lock:
+                            nviol.value += S["viol_count"]
+                except BaseException:
+                    traceback.print_exc()
+                    code = 3
+                os._exit(code)
+            while True:
+                try:
+                    os.waitpid(cpid, 0)
+                    break
+                except InterruptedError:
+                    continue
+                except ChildProcessError:
+                    break
     os._exit(0)
 
 
